@@ -2502,6 +2502,11 @@ class StdCleanuper:
             return elem_no_squash
 
         if t_elem.is_leaf():
+            if isinstance(t_elem.value, list):
+                # this leaf was produced by ProdSequence: it's value is
+                # a list of TElement objects. Each of them needs cleanup
+                for child_elem in t_elem.value:
+                    self._cleanup(child_elem)
             return elem_no_squash
 
         values = []
